@@ -1,6 +1,6 @@
 ---------------------------- MODULE Eval_Oracle ----------------------------
 (* Code -> spec: outcomes observed on the real scheduler are judged by the semantics.
-   Input (IOEnv.CASES_FILE): sequence of [id, e, ctx, obs]; obs is a tagged value, or
+   Input (IOEnv.CASES_FILE): sequence of [id, e, ctx (configured context), run (context given to run), obs]; obs is a tagged value, or
    [t |-> "raise", v |-> <<class, message>>] when run() raised.  One line per case:
    VERDICT <<id, accepted, number of admissible outcomes>>; EXPECT <<id, outcomes>> for rejected ones. *)
 EXTENDS Eval, IOUtils
@@ -13,7 +13,7 @@ Matches(o, obs) ==
   ELSE obs.t # "raise" /\ VEq(o, obs)
 
 Judge(c) ==
-  LET outs == Outs(c.e, c.ctx)
+  LET outs == Outs(c.e, MergeN(<<c.ctx, c.run>>))
       ok == \E o \in outs : Matches(o, c.obs)
   IN /\ PrintT("VERDICT " \o ToJson(<<c.id, IF ok THEN 1 ELSE 0, Cardinality(outs)>>))
      /\ (ok \/ PrintT("EXPECT " \o ToJson(<<c.id, SetToSeq(outs)>>)))
